@@ -112,6 +112,22 @@ pub fn run(s: &mut Session, ctx: &Ctx) {
             }
         }
         s.check(mine < best + 1.0, "within-1.0-of-closest", "AnsiColor::to_ansi_8bit", inp, || format!("code {} at {:?}, closest is {} at {:?}", code, mine, best_code, best));
+        // painted output: the 8-bit sequences of a style (foreground and background) and the colour's
+        // own sequence carry exactly this code - never a system colour
+        let seqs = guard(|| {
+            let mut st = pastel::ansi::Style::default();
+            st.foreground(c);
+            let mut sb = pastel::ansi::Style::default();
+            sb.on(c);
+            (st.escape_sequence(pastel::ansi::Mode::Ansi8Bit), sb.escape_sequence(pastel::ansi::Mode::Ansi8Bit), c.to_ansi_sequence(pastel::ansi::Mode::Ansi8Bit))
+        });
+        match seqs {
+            None => s.fail("no-panic", "Style::escape_sequence", show_color(c), "panic".into()),
+            Some((fg, bg, own)) => {
+                let (wf, wb) = (format!("\x1b[38;5;{}m", code), format!("\x1b[48;5;{}m", code));
+                s.check(fg == wf && bg == wb && own == wf, "painted-8bit-code-is-to_ansi_8bit", "Style::escape_sequence(Ansi8Bit)", inp, || format!("fg {:?} bg {:?} own {:?}, expected code {}", fg, bg, own, code));
+            }
+        }
         if i < 240 {
             s.check(mine < 1.0, "palette-colour-maps-near-itself", "AnsiColor::to_ansi_8bit", inp, || format!("code {} at distance {:?}", code, mine));
         }
